@@ -33,9 +33,9 @@ type pkOp struct {
 }
 
 type pkBehaviour struct {
-	Sched []string         `json:"sched"`
-	Class string           `json:"class"`
-	Ops   map[string]pkOp  `json:"ops"`
+	Sched []string          `json:"sched"`
+	Class string            `json:"class"`
+	Ops   map[string]pkOp   `json:"ops"`
 	Final map[string]string `json:"final"`
 }
 
@@ -141,17 +141,17 @@ func (w *pkWorld) content(wid string) []byte {
 type pkWorld struct {
 	symmetric bool // restart all gateways before every behaviour and give them identical histories
 	extra     []*gw.GW
-	fine     bool // PUT also stops at its private steps (put.tmp_open, put.body_done)
-	sameSize bool // every write has the same length (length then identifies no write)
-	c      *core.Ctx
-	k      pkConfig
-	env    *Env
-	ctl    *sched.Controller
-	cls    []*s3c.Client // one per gateway process
-	bucket string
-	key    string
-	etagOf map[string]string
-	sizeOf map[int]string
+	fine      bool // PUT also stops at its private steps (put.tmp_open, put.body_done)
+	sameSize  bool // every write has the same length (length then identifies no write)
+	c         *core.Ctx
+	k         pkConfig
+	env       *Env
+	ctl       *sched.Controller
+	cls       []*s3c.Client // one per gateway process
+	bucket    string
+	key       string
+	etagOf    map[string]string
+	sizeOf    map[int]string
 }
 
 func newPkWorld(c *core.Ctx, k pkConfig) (*pkWorld, error) {
